@@ -430,8 +430,32 @@ func cmdCheck(args []string) {
 	// bounded stand-ins (labelled bounded, never counted as discharged)
 	var standinReports []map[string]any
 	for _, b := range spec.Bounded {
-		rep, fails := runStandin(*repo, *verif, b, *tier)
+		rep, allFails := runStandin(*repo, *verif, b, *tier)
 		standinReports = append(standinReports, rep)
+		// failing cases that carry a key (STANDIN-FAIL <id> key=<k> ...) may be recorded known findings
+		var fails []string
+		knownKeys := map[string]bool{}
+		for _, f := range allFails {
+			key := ""
+			for _, w := range strings.Fields(f) {
+				if strings.HasPrefix(w, "key=") {
+					key = strings.TrimPrefix(w, "key=")
+					break
+				}
+			}
+			name := "standin:" + strings.SplitN(b, "|", 2)[0] + ":" + key
+			if kf := findingFor(name); key != "" && kf != nil {
+				if !knownKeys[key] {
+					knownKeys[key] = true
+					fmt.Printf("KNOWN-FINDING: property=%s %s %s\n", *prop, name, kf.What)
+					knownObls = append(knownObls, name)
+				}
+				continue
+			}
+			fails = append(fails, f)
+		}
+		rep["known_finding_cases"] = len(allFails) - len(fails)
+		rep["failures"] = len(fails)
 		if len(fails) > 0 {
 			path := filepath.Join(replayDir, "standin-"+sanitize(strings.SplitN(b, "|", 2)[0])+".txt")
 			os.WriteFile(path, []byte(strings.Join(fails, "\n")+"\n"), 0o644)
